@@ -3,6 +3,7 @@
 META = {
     "level": "proof",
     "trusted_base": [
+        "vk.listvc: translation of add_step/remove_step ASTs (callable guard, append; range guard, pop(index); return self) into z3 sequence terms of unbounded length",
         "vk.foldvc: translation of the fold-loop AST (assign / for over the declared stage sequence / stage call with forwarded *args, **kwargs / return) into z3 with uninterpreted stages and an unbounded stage count",
         "free term algebra of the recording stubs: a stage returns the term ('app', name, input), so equality of results holds for every interpretation of the stage functions",
         "executor contract stub: ThreadPoolExecutor.submit(f, *a) calls f(*a) exactly once, Future.result() returns its value or re-raises; as_completed(fs) yields each future exactly once in an order that depends on timing; with w workers and FIFO start order branch j can complete only after at least j-w+1 lower-indexed branches have completed",
@@ -12,5 +13,5 @@ META = {
         "branch names of a ParallelModel are distinct (the dict-keyed result cannot represent duplicates)",
         "stub-run obligations are per stage count n = 0..6 / rounds 1..5 / users 1..3(4): the unbounded statement for the fold loops is the foldvc obligation",
     ],
-    "out_of_reach": ["add/remove-step histories of arbitrary length: bounded exhaustive histories (length 3 quick / 4 thorough) against a list model"],
+    "out_of_reach": ["histories of add/remove operations follow by induction from the unbounded mutator contracts (vk.listvc); the exhaustive histories (length 3 quick / 4 thorough) are a bounded cross-check of that induction"],
 }
